@@ -120,7 +120,7 @@ def print_assumptions(prop, names):
             res[name] = []
         else:
             axs = re.findall(r"^([A-Za-z_][\w.']*)\s*:", body, re.M)
-            res[name] = sorted(set(axs))
+            res[name] = sorted(a for a in set(axs) if a not in ("Axioms", "Variables", "Hypotheses"))
     return res, out
 
 
